@@ -115,9 +115,22 @@ func (e *kvElection) checkKeyAndReelect(ctx context.Context) {
 				zap.String("new_leader_id", newLeaderID),
 			)...,
 		)
-		e.leaderID.Store(newLeaderID)
-		e.revision.Store(entry.Revision())
+		e.observeLeader(newLeaderID, entry.Revision())
 	}
+}
+
+// observeLeader records what a follower learned about the current record (who
+// leads, at which revision). It must not touch an instance that has meanwhile
+// become leader: the heartbeat presents e.revision as the expected revision,
+// so a stale follower-side observation would make the next heartbeat fail.
+func (e *kvElection) observeLeader(id string, rev uint64) {
+	e.mu.Lock()
+	defer e.mu.Unlock()
+	if e.isLeader.Load() {
+		return
+	}
+	e.leaderID.Store(id)
+	e.revision.Store(rev)
 }
 
 // handleWatchEvent processes watch events and triggers re-election when the key is deleted
@@ -179,12 +192,10 @@ func (e *kvElection) handleWatchEvent(entry Entry) {
 				zap.Uint64("revision", entry.Revision()),
 			)...,
 		)
-		e.leaderID.Store(newLeaderID)
-		e.revision.Store(entry.Revision())
+		e.observeLeader(newLeaderID, entry.Revision())
 		return
 	}
-	e.leaderID.Store(newLeaderID)
-	e.revision.Store(entry.Revision())
+	e.observeLeader(newLeaderID, entry.Revision())
 
 	// Check if we should attempt priority takeover
 	if e.cfg.AllowPriorityTakeover && e.cfg.Priority > payload.Priority {
